@@ -97,8 +97,10 @@ func (s *scanner) peek() (*pb.Result, error) {
 	if err != nil {
 		return nil, err
 	}
-	if !s.closed && s.rpc.RenewInterval() > 0 {
-		// Start up a renewer
+	if !s.closed && !s.isRegionScannerClosed() && s.rpc.RenewInterval() > 0 {
+		// Start up a renewer, but only if there's a region scanner
+		// open on the server: a renewal request without a scanner id
+		// would open (and leak) a new one
 		renewCtx, cancel := context.WithCancel(s.rpc.Context())
 		s.renewCancel = cancel
 		go s.renewLoop(renewCtx, s.startRow)
